@@ -12,7 +12,10 @@ import (
 // (relational) sequence specification can be checked step by step.  Node handles are obtained from
 // Find immediately before use; when Find does not find the value the edit is not attempted.
 
-type slistRunner struct{ l *list.SList[int] }
+type slistRunner struct {
+	l     *list.SList[int]
+	slots map[int]*list.SingleNode[int] // kept handles (`hold k x`)
+}
 
 // long runs (protocol: `fill a n`, `q <op> …`, `sum`, `window i j`): the sequence is not printed after every step
 var listQuiet bool
@@ -119,11 +122,25 @@ func (r *slistRunner) Do(op []string) string {
 		return b2s(ok) + " " + eachS(l)
 	case "each":
 		return eachS(l)
+	case "hold": // keep the handle Find gives for a value; it is used by later deleteh / insertafterh lines
+		n, ok := l.Find(atoi(op[2]))
+		if r.slots == nil {
+			r.slots = map[int]*list.SingleNode[int]{}
+		}
+		r.slots[atoi(op[1])] = n
+		return b2s(ok) + " " + eachS(l)
+	case "deleteh":
+		return errs(l.Delete(r.slots[atoi(op[1])])) + " " + eachS(l)
+	case "insertafterh":
+		return errs(l.InsertAfter(r.slots[atoi(op[1])], atoi(op[2]))) + " " + eachS(l)
 	}
 	panic("harness: bad op " + op[0])
 }
 
-type dlistRunner struct{ l *list.DList[int] }
+type dlistRunner struct {
+	l     *list.DList[int]
+	slots map[int]*list.DoubleNode[int]
+}
 
 func eachD(l *list.DList[int]) string {
 	if listQuiet {
@@ -188,13 +205,26 @@ func (r *dlistRunner) Do(op []string) string {
 		return eachD(l)
 	case "dump":
 		return dlistDump(l)
+	case "hold":
+		n, ok := l.Find(atoi(op[2]))
+		if r.slots == nil {
+			r.slots = map[int]*list.DoubleNode[int]{}
+		}
+		r.slots[atoi(op[1])] = n
+		return b2s(ok) + " " + eachD(l)
+	case "deleteh":
+		return errs(l.Delete(r.slots[atoi(op[1])])) + " " + eachD(l)
+	case "insertafterh":
+		return errs(l.InsertAfter(r.slots[atoi(op[1])], atoi(op[2]))) + " " + eachD(l)
+	case "insertbeforeh":
+		return errs(l.InsertBefore(r.slots[atoi(op[1])], atoi(op[2]))) + " " + eachD(l)
 	}
 	panic("harness: bad op " + op[0])
 }
 
 func init() {
-	kinds["slist"] = func(p []string) Runner { return &slistRunner{list.Init(atoi(p[0]))} }
-	kinds["dlist"] = func(p []string) Runner { return &dlistRunner{list.InitDList(atoi(p[0]))} }
+	kinds["slist"] = func(p []string) Runner { return &slistRunner{l: list.Init(atoi(p[0]))} }
+	kinds["dlist"] = func(p []string) Runner { return &dlistRunner{l: list.InitDList(atoi(p[0]))} }
 	gens["C19"] = genC19
 }
 
@@ -210,6 +240,52 @@ func genC19(g *Gen) {
 				ops = append(ops, "first", "last")
 			}
 			g.Emit(kind, []string{"1"}, ops)
+		}
+	}
+	// kept handles: every list of 2..4 values over {1,2,3} (duplicates), the handle of each value whose first
+	// occurrence is not the first element, one edit in between (an earlier duplicate pushed in front, removals
+	// before and behind, …), then every operation through the kept handle
+	for _, kind := range []string{"slist", "dlist"} {
+		hops := []string{"deleteh 0", "insertafterh 0 7"}
+		if kind == "dlist" {
+			hops = append(hops, "insertbeforeh 0 7")
+		}
+		for first := 1; first <= 2; first++ {
+			for n := 1; n <= 3; n++ {
+				tot := 1
+				for i := 0; i < n; i++ {
+					tot *= 3
+				}
+				for code := 0; code < tot; code++ {
+					if !g.Mine() {
+						continue
+					}
+					seq := []int{first}
+					var build []string
+					for i, c := 0, code; i < n; i, c = i+1, c/3 {
+						seq = append(seq, c%3+1)
+						build = append(build, "append "+itoa(c%3+1))
+					}
+					for x := 1; x <= 3; x++ {
+						if k := firstIndex(seq, x); k < 1 {
+							continue
+						}
+						edits := [][]string{{}, {"unshift " + itoa(x)}, {"unshift 9"}, {"append " + itoa(x)}, {"shift"}, {"pop"},
+							{"delete " + itoa(first)}, {"insertafter " + itoa(first) + " 9"}, {"delete 3"}, {"replace " + itoa(first) + " " + itoa(x)},
+							{"unshift " + itoa(x), "unshift " + itoa(x)}, {"unshift " + itoa(x), "pop"}, {"insertafter " + itoa(x) + " " + itoa(x)}}
+						for _, e := range edits {
+							for _, h := range hops {
+								ops := append(append(append([]string{}, build...), "hold 0 "+itoa(x)), e...)
+								ops = append(ops, h, "each")
+								if kind == "dlist" {
+									ops = append(ops, "dump")
+								}
+								g.Emit(kind, []string{itoa(first)}, ops)
+							}
+						}
+					}
+				}
+			}
 		}
 	}
 	// long lists: standard lengths and lengths around thresholds a change introduced into the source (walk limits)
